@@ -193,6 +193,9 @@ func Any(r *rand.Rand, size int) KeySet {
 		}
 		return ShortTable(r, d, 2+r.Intn(40))
 	}
+	if size >= 200 && r.Intn(14) == 0 {
+		return WideBig(r, size)
+	}
 	switch r.Intn(11) {
 	case 9:
 		return BigAscii(r, size)
@@ -414,4 +417,38 @@ func LowHigh(r *rand.Rand, maxKeys int) KeySet {
 		rec([]byte{t})
 	}
 	return KeySet{uniqSorted(m), "lowhigh"}
+}
+
+// WideBig: a 257-bit node with more than 128 labels (up to all 256 byte values
+// plus the end-of-key label), at the root or below a short prefix.
+func WideBig(r *rand.Rand, maxKeys int) KeySet {
+	m := map[string]struct{}{}
+	pre := ""
+	if r.Intn(2) == 0 {
+		pre = randStr(r, alphabets[0], 1, 2)
+		m[pre] = struct{}{} // the key that ends at the wide node
+	}
+	fan := 129 + r.Intn(128)
+	if fan > maxKeys {
+		fan = maxKeys
+	}
+	for _, b := range r.Perm(256)[:fan] {
+		k := pre + string([]byte{byte(b)})
+		switch r.Intn(4) {
+		case 0:
+			m[k] = struct{}{}
+		case 1:
+			m[k+"z"] = struct{}{}
+		default:
+			m[k] = struct{}{}
+			m[k+randStr(r, alphabets[1], 1, 2)] = struct{}{}
+		}
+	}
+	if pre != "" && r.Intn(2) == 0 {
+		// siblings of the prefix so that the wide node is not the root
+		for i := 0; i < 12; i++ {
+			m[randStr(r, alphabets[5], 1, 2)] = struct{}{}
+		}
+	}
+	return KeySet{uniqSorted(m), "widebig"}
 }
